@@ -45,6 +45,34 @@ theorem C12_continuation (H : Bytes → Bytes) (pr : Proj) (h k : List Step) (i 
   have hro := (invoke_readOnly Cfg.fixed H pr rfl rfl i m e (runHist Cfg.fixed H pr h s).1 hm).1
   simp [runHist_append, runHist, step, hro]
 
+/-- **the marker of method timestamp** (as patched by TS1–TS3: created when absent, touched when
+the task is going to run, REMOVED by `OnError`): the read-only modes never create, touch or remove
+it — nor any checksum —, whatever the environment does (declined prompt, failing command). -/
+theorem C12_marker_untouched (H : Bytes → Bytes) (pr : Proj) (i : Nat) (m : Mode) (e : Env) (s : State)
+    (hm : m.readOnly = true) :
+    (invoke Cfg.fixed H pr i m e s).1.marks = s.marks ∧ (invoke Cfg.fixed H pr i m e s).1.sums = s.sums := by
+  rw [(C12_full_fixed H pr i m e s hm).1]
+  exact ⟨rfl, rfl⟩
+
+/-- … because the dry body never reaches `statusOnError` (`onError`): for every task, environment
+and state the dry body is the identity — also where the non-dry body would call `onError` (prompt
+declined, command failing). -/
+theorem C12_dry_body_no_onError (H : Bytes → Bytes) (pr : Proj) (i : Nat) (t : Task) (e : Env) (s : State) :
+    runBody Cfg.fixed H pr i t true e s = (s, Obs.quiet) := by
+  simp [runBody, Cfg.fixed]
+
+/-- the two call sites of `statusOnError` in the tree under test, with their guards, read off the
+regenerated table: at the prompt it sits under `!e.Dry` like the prompt itself; in the command loop
+it is reached only when `e.runCommand` returns an error, and `execext.RunCommand` — the only thing
+the model's commands do — is unreachable when `e.Dry` (a failing SUB-TASK call in dry mode is
+outside the model: assumption "no sub-task calls"). -/
+theorem statusOnError_sites :
+    TaskModel.Gen.DryWiring.guards.filter (fun g => g.1 == "Executor.RunTask:e.statusOnError" || g.1 == "Executor.runCommand:execext.RunCommand") =
+      [("Executor.RunTask:e.statusOnError", "range t.Prompt && p != \"\" && !e.Dry"),
+       ("Executor.RunTask:e.statusOnError", "range t.Cmds && !(t.Cmds[i].Defer)"),
+       ("Executor.runCommand:execext.RunCommand", "case cmd.Cmd != \"\" && !(!shouldRunOnCurrentPlatform(cmd.Platforms)) && !(e.Dry)")] := by
+  decide
+
 /-- the dry wiring read off the regenerated tables -/
 def cfgOfTables : Cfg :=
   { listDry := TaskModel.Gen.DryWiring.calls.any (fun c => c.1 == "Executor.ToEditorOutput:fingerprint.WithDry" && c.2 == "true"),
@@ -88,5 +116,24 @@ example : (invoke Cfg.fixed id prX 0 .listJson (env 10) s1).1 = s1 ∧
     (invoke Cfg.fixed id prD 0 .dry (env 10) State.empty).1 = State.empty ∧
     (invoke Cfg.fixed id prX 0 .run (env 10) s1).1 ≠ s1 ∧
     (invoke Cfg.fixed id prX 0 .run (env 10) s1).2.ran = [0] := by decide
+
+/- method timestamp: a marker older than the source (3 < 5) -/
+private def tT : Task := { tX with method := .timestamp }
+private def prT : Proj := { prX with tasks := [tT] }
+private def s3 : State := { s1 with marks := [(tsKey tT, 3)] }
+private def envF (n : Nat) : Env := ⟨n, true, some 0, none⟩
+
+/-- non-vacuity for the marker: a normal run CREATES it (no marker), TOUCHES it (stale marker) and —
+when the command fails — REMOVES it; `--dry` (also with the failing command), `--status`,
+`--list --json`, `--list`, `--summary` leave it exactly as it was -/
+example :
+    (invoke Cfg.fixed id prT 0 .run (env 10) s1).1.marks = [(tsKey tT, 10)] ∧
+    (invoke Cfg.fixed id prT 0 .run ⟨10, true, none, none⟩ s3).1.marks = [(tsKey tT, 10)] ∧
+    (invoke Cfg.fixed id prT 0 .run (envF 10) s3).1.marks = [] ∧
+    (invoke Cfg.fixed id prT 0 .dry (env 10) s1).1 = s1 ∧
+    (invoke Cfg.fixed id prT 0 .dry (envF 10) s3).1 = s3 ∧ (invoke Cfg.fixed id prT 0 .dry (envF 10) s3).2.ran = [] ∧
+    (invoke Cfg.fixed id prT 0 .status (envF 10) s3).1 = s3 ∧ (invoke Cfg.fixed id prT 0 .listJson (envF 10) s3).1 = s3 ∧
+    (invoke Cfg.fixed id prT 0 .list (envF 10) s3).1 = s3 ∧ (invoke Cfg.fixed id prT 0 .summary (envF 10) s3).1 = s3 := by
+  decide
 
 end Props.C12
